@@ -19,6 +19,8 @@ DUPHEAD = ['Dup\n===\n\na\n\nDup\n===\n\nb', f'{_LONG}\n{"=" * len(_LONG)}\n\nte
            f'{_LONG} one\n{"=" * (len(_LONG) + 4)}\n\ntext\n\n{_LONG} two\n{"=" * (len(_LONG) + 4)}\n\nmore\n\n{_LONG} one\n{"-" * (len(_LONG) + 4)}\n\nend',
            '???\n===\n\nx\n\n???\n===\n\ny\n\n!!!\n---\n\nz', 'Top\n===\n\nSub\n---\n\na\n\nTop\n===\n\nSub\n---\n\nb\n\nSub\n---\n\nc',
            'Dup\n===\n\nDup 1\n=====\n\nDup\n===\n\nDup-1\n=====\n\nx', 'x ' * 40 + '\n' + '=' * 80 + '\n\nt\n\n' + 'x ' * 40 + '\n' + '=' * 80 + '\n\nu']
+# fields that are not indented alike (the parser opens a field list per indentation)
+EPY += ['Intro.\n\n    @param a: x\n\n@type a: int', 'word\n\n    @param *args: x    ::\n      \n        lit\n\n@type: noarg', '  @param a: x\n@return: r\n    @note: n']
 EPY += DUPHEAD
 RST = ['*em*', '**strong**', '``lit``', '`ref`', '`text <http://x>`_', '`text <a.b>`', ':py:class:`X`', ':role:`x`', ':unknownrole:`x`', '|sub|', '[1]_', '[#]_', '[*]_', 'name_',
        '_`target`', '.. _t: http://x', '.. [1] foot', '.. note:: n', '.. warning::\n   w', '.. unknowndir:: x', '.. code:: python\n\n   x = 1', '.. code-block:: py\n\n  y', '.. math:: x',
